@@ -66,7 +66,9 @@ fn min_feasible(body: &[u8], modes: u8, h: usize, order: &[usize], tier: RTier, 
     let mut caps: Vec<usize> = order.iter().map(|i| SYMBOLS[*i].data).collect();
     caps.sort_unstable();
     caps.dedup();
-    caps.into_iter().find(|c| feasible(body, modes, *c, h, tier, st))
+    // no encodation carries more than two characters per codeword
+    let lower = h + body.len() / 2;
+    caps.into_iter().filter(|c| *c >= lower).find(|c| feasible(body, modes, *c, h, tier, st))
 }
 
 pub fn eval(cfg: &Cfg, input: &[u8], strong: bool, st: &mut Stats) -> Result<(), String> {
@@ -135,7 +137,7 @@ pub fn eval(cfg: &Cfg, input: &[u8], strong: bool, st: &mut Stats) -> Result<(),
             }
         }
         // ---- strong oracle
-        if body.len() > 64 {
+        if body.len() > if strong { 700 } else { 64 } {
             st.count("strong_oracle_skipped_long_input");
             return Ok(());
         }
@@ -273,14 +275,14 @@ pub fn es_g(kmax: usize) -> Family {
     Family::list(out)
 }
 
-pub fn es_h_specs(_tier: Tier) -> Vec<(&'static str, &'static [u8], usize)> {
+pub fn es_h_specs(tier: Tier) -> Vec<(&'static str, &'static [u8], usize)> {
     vec![
-        ("ES-H {>,6,A} + digit tails", b">6A", 10),
-        ("ES-H {A,1,space,*} + digit tails", b"A1 *", 8),
-        ("ES-H {comma,6,A} + digit tails", b",6A", 10),
-        ("ES-H {comma,6} + digit tails", b",6", 14),
+        ("ES-H {>,6,A} + digit tails", b">6A", tier.pick(8, 10)),
+        ("ES-H {A,1,space,*} + digit tails", b"A1 *", tier.pick(7, 8)),
+        ("ES-H {comma,6,A} + digit tails", b",6A", tier.pick(9, 10)),
+        ("ES-H {comma,6} + digit tails", b",6", tier.pick(12, 14)),
         ("ES-H {a,*,A} + digit tails", b"a*A", 8),
-        ("ES-H {>,6,A,a} + digit tails", b">6Aa", 8),
+        ("ES-H {>,6,A,a} + digit tails", b">6Aa", tier.pick(7, 8)),
     ]
 }
 
@@ -294,6 +296,31 @@ pub fn es_h(alpha: &[u8], maxlen: usize) -> Family {
         prefixes.push(b.clone());
     }
     Family::Tails { prefixes, alpha: vec![b'1'], max: 6 }
+}
+
+pub fn es_j(tier: Tier) -> Family {
+    let mut prefixes: Vec<Vec<u8>> = Vec::new();
+    for l in tier.pick(vec![250usize], vec![248usize, 249, 250, 251, 499, 500]) {
+        prefixes.push(vec![0x80; l]);
+    }
+    for l in tier.pick(vec![250usize], vec![249usize, 250, 375]) {
+        prefixes.push(vec![b'A'; l]);
+    }
+    if tier == Tier::Thorough {
+        prefixes.push(vec![b'a'; 250]);
+    }
+    let units: Vec<&[u8]> = tier.pick(vec![&b"A"[..], b"1"], vec![&b"A"[..], b"a", b"1", b"*A^ "]);
+    let mut out = Vec::new();
+    for p in &prefixes {
+        for u in &units {
+            for j in 0..=48 {
+                let mut v = p.clone();
+                v.extend(u.iter().cycle().take(j));
+                out.push(v);
+            }
+        }
+    }
+    Family::list(out)
 }
 
 struct SPart {
@@ -385,6 +412,10 @@ fn parts(tier: Tier) -> Vec<SPart> {
     for (name, alpha, maxlen) in es_h_specs(tier) {
         v.push(SPart { part: Part { name, family: es_h(alpha, maxlen), cfgs: gen::cfgs(&[ALL_MODES], &[d], &on, &off) }, strong: true });
     }
+    // ES-J: long inputs: a Base256 / C40 / Text run whose length sits at a length-field or symbol
+    // boundary, followed by a tail of 0..=48 characters of one class (walks the end of the data
+    // across the capacity of the symbol in steps of 2/3, 1/2, 3/4 and 1 codeword)
+    v.push(SPart { part: Part { name: "ES-J long runs + tails", family: es_j(tier), cfgs: gen::cfgs(&[ALL_MODES], &[d], &on, &off) }, strong: true });
     // weak verdict space (strong oracle computed and reported, but it does not decide)
     let mq = gen::modes_quick();
     v.push(SPart { part: Part { name: "W: ES-B sigma10<=4 x mode sets without ASCII", family: Family::Over { alpha: SIGMA10.to_vec(), min: 0, max: 4 }, cfgs: gen::cfgs(&gen::modes_all(), &[d, sq(12, 12)], &on, &off) }, strong: false });
